@@ -1634,9 +1634,14 @@ fn big_raw(seed: u64, i: u64) -> RawBlock {
 			1 | 2 => 9,
 			_ => 10,
 		};
-		let n_in = if i == 4 { 1 } else { 8 + r(1) % 4 };
+		// every fourth base chain spends its OLDEST outputs, twelve per block: by the time an archive header can
+		// fall on it the first 1024 outputs are all spent — a bitmap chunk without a single bit set below chunks
+		// that have some (the other chains leave single unspent outputs behind everywhere)
+		let oldest_first = seed % 4 == 3;
+		let n_in = if i == 4 { 1 } else if oldest_first { 12 } else { 8 + r(1) % 4 };
 		let ins: Vec<u16> = (0..n_in)
 			.map(|k| match r(10 + k) % 20 {
+				_ if oldest_first => u16::MAX,
 				0..=14 => 0u16,
 				15..=17 => (r(30 + k) % 5000) as u16,
 				_ => 40000 + (r(30 + k) % 25000) as u16,
@@ -1701,11 +1706,11 @@ pub fn big_base(ctx: &Ctx, seed: u64) -> Result<Arc<BigBase>, Fail> {
 	let mut world = new_world(&cb);
 	let mut head = 0usize;
 	let mut infos = BTreeMap::new();
-	// Two of three base chains are steered so that a block an archive header can fall on (height 110 or 120)
+	// Two of four base chains are steered so that a block an archive header can fall on (height 110 or 120)
 	// commits to exactly 1024 outputs — a whole number of bitmap chunks, the boundary between one and two
 	// leaves of the bitmap MMR: the running count is held at 1024 - (blocks still to come), each of which adds
 	// its coinbase output at least.
-	let exact_at: Option<u64> = match seed % 3 {
+	let exact_at: Option<u64> = match seed % 4 {
 		1 => Some(110),
 		2 => Some(120),
 		_ => None,
@@ -2601,6 +2606,12 @@ pub fn check_sync(ctx: &Ctx, case: &SyncCase, counting: bool) -> PResult {
 			Src::Reorged { .. } => "sync:source:reorganised_across_the_archive_header_after_serving",
 		});
 		ev.class(&format!("sync:archive_header_height:{}", archive.height));
+		{
+			let top = twin.unspent_idx.iter().next_back().copied().unwrap_or(0) / 1024;
+			if (0..top).any(|c| twin.unspent_idx.range(c * 1024..(c + 1) * 1024).next().is_none()) {
+				ev.class("sync:archive_bitmap:empty_chunk_below_unspent_outputs");
+			}
+		}
 		let n_out = refmmr::ref_leaves_below(archive.output_mmr_size);
 		ev.class(if n_out % 1024 == 0 { "sync:archive_outputs:whole_number_of_bitmap_chunks" } else if n_out > 1024 { "sync:archive_outputs:above_1024" } else { "sync:archive_outputs:below_1024" });
 		ev.class(if honest { "sync:honest" } else { "sync:adversarial" });
